@@ -56,6 +56,11 @@ func RunBitPairs(w *World, r *Report, pkgRel, decName, encName string) {
 	}
 	// encoder: walk ifs whose condition is a single bool field (or its negation is the else branch)
 	encBits := map[string]map[int64]bool{} // field -> set of masks OR-ed in when true
+	// a flag bit that is only written when another flag is false (else-if
+	// chains): the two are independent bits of the format, so the second is
+	// lost whenever both are set
+	encUnder := map[string]string{}
+	var negs []string
 	var walk func(n ast.Node, fields []string)
 	walk = func(n ast.Node, fields []string) {
 		switch x := n.(type) {
@@ -69,7 +74,9 @@ func RunBitPairs(w *World, r *Report, pkgRel, decName, encName string) {
 			if f != "" {
 				walk(x.Body, append(append([]string{}, fields...), f))
 				// the else branch is under !f: bits set there do not belong to f
+				negs = append(negs, f)
 				walk(x.Else, fields)
+				negs = negs[:len(negs)-1]
 			} else {
 				walk(x.Body, fields)
 				walk(x.Else, fields)
@@ -82,6 +89,15 @@ func RunBitPairs(w *World, r *Report, pkgRel, decName, encName string) {
 						encBits[f] = map[int64]bool{}
 					}
 					encBits[f][c] = true
+					for _, ng := range negs {
+						if ng != f {
+							encUnder[f] = ng
+						}
+					}
+					if len(fields) > 1 {
+						// nested under another flag: written only when that one is set
+						encUnder[f] = "!" + fields[len(fields)-2]
+					}
 				}
 			}
 			// header.IsFixedPitch = 1 under if info.IsFixedPitch: handled by fieldpair (control)
@@ -96,6 +112,8 @@ func RunBitPairs(w *World, r *Report, pkgRel, decName, encName string) {
 	walk(efd.Body, nil)
 	// decoder: expressions assigned to bool fields
 	decBits := map[string]map[int64]bool{}
+	decMask := map[string]int64{} // all bits the decoder looks at for the field
+	var curMask int64
 	var masksOf func(e ast.Expr) (map[int64]bool, bool)
 	masksOf = func(e ast.Expr) (map[int64]bool, bool) {
 		switch x := e.(type) {
@@ -131,9 +149,11 @@ func RunBitPairs(w *World, r *Report, pkgRel, decName, encName string) {
 					return nil, false
 				}
 				if x.Op == token.NEQ && v == 0 {
+					curMask |= m
 					return map[int64]bool{m: true}, true
 				}
 				if x.Op == token.EQL && v != 0 && v&^m == 0 {
+					curMask |= m
 					return map[int64]bool{v: true}, true
 				}
 			}
@@ -141,7 +161,9 @@ func RunBitPairs(w *World, r *Report, pkgRel, decName, encName string) {
 		return nil, false
 	}
 	record := func(field string, e ast.Expr) {
+		curMask = 0
 		if ms, ok := masksOf(e); ok {
+			decMask[field] |= curMask
 			if decBits[field] == nil {
 				decBits[field] = map[int64]bool{}
 			}
@@ -208,6 +230,13 @@ func RunBitPairs(w *World, r *Report, pkgRel, decName, encName string) {
 			r.FailC("bitpair", key, []string{"read-only"}, w.Pos(dfd.Pos()), fmt.Sprintf("flag %s is decoded from bits %s but the encoder sets no bit for it", f, show(d)), nil)
 		case len(d) == 0:
 			r.FailC("bitpair", key, []string{"write-only"}, w.Pos(efd.Pos()), fmt.Sprintf("flag %s sets bits %s when encoded but is not decoded from a bit test", f, show(e)), nil)
+		case encUnder[f] != "" && show(e) == show(d) && !decoderAlsoTests(decMask[f], encBits[strings.TrimPrefix(encUnder[f], "!")]):
+			other := encUnder[f]
+			when := "false"
+			if strings.HasPrefix(other, "!") {
+				other, when = other[1:], "true"
+			}
+			r.FailC("bitpair", key, []string{"dependent"}, w.Pos(efd.Pos()), fmt.Sprintf("flag %s: the encoder writes bits %s only when flag %s is %s, but the decoder reads the two flags from independent bits: the combination is not preserved", f, show(e), other, when), nil)
 		case show(e) != show(d):
 			r.FailC("bitpair", key, []string{"mismatch"}, w.Pos(efd.Pos()), fmt.Sprintf("flag %s: the encoder sets bits %s but the decoder tests bits %s", f, show(e), show(d)), nil)
 		default:
@@ -258,4 +287,19 @@ func RunFieldCover(w *World, r *Report, pkgRel string) {
 			r.FailC("fieldcover", key, []string{"unpaired"}, w.Pos(f.Pos()), fmt.Sprintf("field %s.Info.%s is not paired between reader and writer (not encoded, not decoded, or carried by a variable-length part the pairing does not follow)", pkgRel, f.Name()), nil)
 		}
 	}
+}
+
+// decoderAlsoTests: the decoder's test of a flag looks at all bits of the
+// other flag too (sel&0x60 == 0x20: bold only when the regular bit is clear),
+// so writing the flag only in that case loses nothing.
+func decoderAlsoTests(mask int64, otherBits map[int64]bool) bool {
+	if len(otherBits) == 0 {
+		return false
+	}
+	for b := range otherBits {
+		if mask&b != b {
+			return false
+		}
+	}
+	return true
 }
